@@ -10,9 +10,11 @@ that assemble the pieces (`Canvas.Path.moveTo/lineTo/quadTo/cubeTo/arcTo`), `pus
 tests `Tcurve < T+dT`, `!Equal(t0, 1)`, `!Equal(startTheta, theta2)` and the final push.
 
 Abstract (an *oracle* per drawing segment, `SegOracle`): the segment length `dT` SplitAt advances by,
-the values `invL(ts[j]-T)` for the cuts that fall into the segment, and for arcs the centre form
-`ellipseToCenter` returns.  The correspondence driver receives them from the real code (hook), the
-theorems leave them arbitrary.
+the estimates of the Chebyshev polynomial for the cuts that fall into the segment, the polish function
+of `invSpeedApprox`, and for arcs the centre form `ellipseToCenter` returns.  The correspondence driver
+computes `dT` (math.Hypot / 16-panel Gauss–Legendre table) and the polish loop (`CanvasModel/C09/Polish.lean`)
+itself from the geometry and receives only the polynomial's estimates and the centre form from the
+real code (hook); the theorems leave all of them arbitrary.
 
 Generic in the scalar; core Lean only.
 -/
@@ -25,8 +27,12 @@ variable {α : Type}
 structure SegOracle (α : Type) where
   /-- segment length used for `T += dT` and for selecting the cuts -/
   dT : α
-  /-- `invL(ts[j]-T)` for the selected cuts, in order (parameters for Béziers, angles for arcs) -/
+  /-- for the selected cuts, in order: the estimate of the Chebyshev polynomial
+  `invL((ts[j]-T)/totalLength*approxLength)` (parameters for Béziers, angles for arcs) -/
   inv : List α
+  /-- the polish step of `invSpeedApprox` (56b2370): requested local arc length `ts[j]-T` and estimate ↦
+  the parameter the cut is made at -/
+  polish : α → α → α
   /-- `cx, cy, theta1, theta2` of `ellipseToCenter` (arcs only) -/
   cx : α
   cy : α
@@ -116,13 +122,17 @@ def monoClamp (lt : α → α → Bool) : α → List α → List α
     let t' := if lt t t0 then t0 else t
     t' :: monoClamp lt t' ts
 
+/-- the cut parameters of one curved segment: `invL(ts[j]-T)` of `invSpeedApprox` = the polished estimates -/
+def polished (O : SplitOps α) (o : SegOracle α) (T : α) (sel : List α) : List α :=
+  List.zipWith (fun t est => o.polish (O.sub t T) est) sel o.inv
+
 /-- QuadTo case (path.go:1582-1611); `none` when the oracle supplies too few inverse values -/
 def quadCase (start cp e : Pt α) (o : SegOracle α) (s : SState α) : Option (SState α) :=
   if s.rem.isEmpty then some { s with q := quadTo G cp e s.q }
   else
     let sel := selectCuts O s.T o.dT s.rem
     if sel.1.length != o.inv.length then none else
-    let inv := monoClamp O.lt O.zero o.inv
+    let inv := monoClamp O.lt O.zero (polished O o s.T sel.1)
     let cut := cutsGen O.lt O.sub O.div O.one O.quadL O.quadR (start, cp, e) O.zero inv
     let st := cut.1.foldl (fun (st : SState α) (pc : Pt α × Pt α × Pt α) =>
         let st := { st with q := quadTo G pc.2.1 pc.2.2 st.q }
@@ -138,7 +148,7 @@ def cubeCase (start c1 c2 e : Pt α) (o : SegOracle α) (s : SState α) : Option
   else
     let sel := selectCuts O s.T o.dT s.rem
     if sel.1.length != o.inv.length then none else
-    let inv := monoClamp O.lt O.zero o.inv
+    let inv := monoClamp O.lt O.zero (polished O o s.T sel.1)
     let cut := cutsGen O.lt O.sub O.div O.one O.cubeL O.cubeR (start, c1, c2, e) O.zero inv
     let st := cut.1.foldl (fun (st : SState α) (pc : Pt α × Pt α × Pt α × Pt α) =>
         let st := { st with q := cubeTo G pc.2.1 pc.2.2.1 pc.2.2.2 st.q }
@@ -175,7 +185,7 @@ def arcCase (rx ry phi : α) (large sweep : Bool) (e : Pt α) (o : SegOracle α)
   else
     let sel := selectCuts O s.T o.dT s.rem
     if sel.1.length != o.inv.length then none else
-    match arcCuts G O rx ry phi sweep o o.inv (s, o.th1, large) with
+    match arcCuts G O rx ry phi sweep o (polished O o s.T sel.1) (s, o.th1, large) with
     | none => none
     | some (st, startTheta, nextLarge) =>
       let st := if O.eq startTheta o.th2 then st
